@@ -3,9 +3,9 @@ from __future__ import annotations
 from rfbgen import *  # noqa
 
 ID = "C12"
-PROOF_MODULES = ["VncProofs.C12", "VncProofs.C13Cli", "VncProofs.EndToEnd", "VncProofs.C12Cursor"]
+PROOF_MODULES = ["VncProofs.C12", "VncProofs.C13Cli", "VncProofs.EndToEnd", "VncProofs.C12Cursor", "VncProofs.Capstone"]
 THEOREMS = ["Vnc.C12_tidy", "Vnc.C12_step", "Vnc.C12_refines", "Vnc.C12_update_pixels", "Vnc.C12_growth", "Vnc.C12_first",
-            "Vnc.C12_resize", "Vnc.C12_nocursor", "Vnc.C12_cli_nocursor", "Vnc.sys_drain_screen", "Vnc.E2E_session", "Vnc.C12_drawCursor_frame", "Vnc.C12_cursor_step", "Vnc.C12_cursor_frame", "Vnc.C12_cursor_frame_fresh", "Vnc.C12_cursor_resize_size", "Vnc.C12_dirty_empty", "Vnc.C12_repaint_cleans"]
+            "Vnc.C12_resize", "Vnc.C12_nocursor", "Vnc.C12_cli_nocursor", "Vnc.sys_drain_screen", "Vnc.E2E_session", "Vnc.C12_drawCursor_frame", "Vnc.C12_cursor_step", "Vnc.C12_cursor_frame", "Vnc.C12_cursor_frame_fresh", "Vnc.C12_cursor_resize_size", "Vnc.C12_dirty_empty", "Vnc.C12_repaint_cleans", "Vnc.E2E_session_refines", "Vnc.applyOuts_canvasRun"]
 TRUSTED = [
     "Lean 4.33 kernel; standard axioms only",
     "VncModel/Canvas.lean (updateRectangle / updateDesktopSize / updateCursor / drawCursor on exact pixel functions) is tied to client.py + Pillow by this correspondence run: same callback histories, screen size and all pixels compared",
